@@ -1311,7 +1311,9 @@ func (pc ParseContext) compilePackage(ctx context.Context, b ast.Branch, c ast.C
 			}
 		}
 
-		name := scanner.String()
+		// Whitespace around the path is not significant. It must be removed before the path is
+		// cleaned and checked: removing it afterwards can turn a component such as " .." into "..".
+		name := strings.Trim(scanner.String(), " \t\n")
 		if strings.HasPrefix(name, "/") {
 			fromRoot := pkg["dot"] == nil
 			if !fromRoot {
